@@ -84,8 +84,12 @@ def body_hash(fn):
 
 def describe(trees):
   """Reference description of a set of parsed modules {relpath: tree}."""
-  ref = {'classes': {}, 'functions': {}}
+  ref = {'classes': {}, 'functions': {}, 'constants': {}}
   for rel, tree in trees.items():
+    ref['constants'][rel] = sorted(
+        t.id for st in tree.body if isinstance(st, (ast.Assign, ast.AnnAssign))
+        for t in (st.targets if isinstance(st, ast.Assign) else [st.target])
+        if isinstance(t, ast.Name))
     for st in tree.body:
       if isinstance(st, ast.ClassDef):
         ref['classes']['%s::%s' % (rel, st.name)] = class_fingerprints(st)
